@@ -98,10 +98,12 @@ class Region(abc.ABC):
                 # np.any is used for SkyCoord array comparisons
                 if np.any(self_val != other_val):
                     return False
-        except TypeError:
+        except (TypeError, ValueError):
             # TypeError is raised from SkyCoord comparison when they do
-            # not have equivalent frames. Here return False instead of
-            # the TypeError.
+            # not have equivalent frames (ValueError when one of them
+            # carries an extra frame attribute that is not equivalent,
+            # e.g., an obstime on an ICRS coordinate). Here return False
+            # instead of the exception.
             return False
 
         return True
